@@ -1,7 +1,12 @@
 #!/bin/sh
-# tools/seed_queue.sh <Cxx> <crate> [prop]: confirm round-2 seeds 3 and 4 of a property, one after the other
+# tools/seed_queue.sh <Cxx> <crate> [prop] [r1 <n>]: confirm round-2 seeds 3 and 4 of a property (default), or the
+# round-1 seed <n> (from /tmp/seed) when the 4th word is r1
 P=$1; CR=$2; PR=${3:-$1}
+if [ "$4" = r1 ]; then
+  FEATURES=$SEEDFEATURES SEEDROOT=/tmp/seed /verif/tools/seed_confirm.sh $P $5 $CR $PR > /verif/.build/sc-$P-$5.log 2>&1
+  exit 0
+fi
 for n in 3 4; do
   [ -f /tmp/seed2/$P/out/patch-$n.diff ] || { echo "no patch-$n for $P" > /verif/.build/sc-$P-$n.log; continue; }
-  SEEDROOT=/tmp/seed2 /verif/tools/seed_confirm.sh $P $n $CR $PR > /verif/.build/sc-$P-$n.log 2>&1
+  FEATURES=$SEEDFEATURES SEEDROOT=/tmp/seed2 /verif/tools/seed_confirm.sh $P $n $CR $PR > /verif/.build/sc-$P-$n.log 2>&1
 done
